@@ -509,6 +509,20 @@ class ExtModel:
             return [("val", st, a)]
         return [("val", st, Unknown("str", label=f"str({a.key()!r})"))]
 
+    def b_map(self, interp, st, args, kwargs, node):
+        """map(f, iterable): element-wise for an exactly known iterable and a total builtin conversion (str)."""
+        site = self._site(interp, st, node)
+        if len(args) == 2 and isinstance(args[0], ExtV) and args[0].name == "builtins.str":
+            items = interp._exact_items(args[1])
+            if items is not None:
+                out = []
+                for it_ in items:
+                    r = self.b_str(interp, st, [it_], {}, node)
+                    out.append(r[0][2])
+                return [("val", st, ListV(out, label=f"map:{site}"))]
+            return [("val", st, ListV(None, elem=Unknown("str", label=f"str(elem:{args[1].key()!r})"), label=f"map:{site}"))]
+        return [("val", st, Unknown(label=f"map:{site}"))]
+
     def b_bool(self, interp, st, args, kwargs, node):
         if not args:
             return [("val", st, Const(False))]
@@ -580,10 +594,19 @@ class ExtModel:
             if not (interp.truth(st, src) is True):
                 outs.append(self._raise(interp, st.copy(), ValueError, node, "max()/min() of a possibly empty sequence"))
         res = Unknown("int", label=f"{unparse(node)[:40]}")
-        if len(args) == 1 and isinstance(args[0], ExtObj) and args[0].cls == "dict_keys" and args[0].args and unparse(node.func) == "max":
-            d = args[0].args[0]
-            res = Unknown("int", label=f"max(keys:{d.key()!r})")
-            res.maxof = d.key()
+        if len(args) == 1 and unparse(node.func) == "max":
+            d = None
+            if isinstance(args[0], ExtObj) and args[0].cls == "dict_keys" and args[0].args:
+                d = args[0].args[0]
+            elif isinstance(interp.ty_of(args[0]), tuple) and interp.ty_of(args[0])[0] == "dict":
+                d = args[0]  # max(d) iterates the keys
+            if d is not None:
+                res = Unknown("int", label=f"max(keys:{d.key()!r})")
+                res.maxof = d.key()
+                dflt = kwargs.get("default")
+                if isinstance(dflt, Const) and isinstance(dflt.value, int):
+                    # max(keys, default=c): at least c, and above no key only when the map is empty
+                    res.maxof_default = dflt.value
         outs.append(("val", st, res))
         return outs
 
@@ -812,6 +835,13 @@ class ExtModel:
                 lst.minlen = len(recv.value.split(sep))
             else:
                 lst.minlen = 1 + getattr(recv, "minsep", {}).get(sep, 0)
+        # split / rsplit with a maxsplit k yields at most k + 1 fields
+        ms = args[1] if len(args) > 1 else kwargs.get("maxsplit")
+        if isinstance(ms, Const) and isinstance(ms.value, int) and ms.value >= 0:
+            lst.maxlen = ms.value + 1
+            lst.split_from = "right" if getattr(node.func, "attr", "") == "rsplit" else "left"
+            lst.split_sep = args[0].value if args and isinstance(args[0], Const) else None
+            lst.split_of = recv
         return [("val", st, lst)]
 
     g_rsplit = g_split
@@ -906,6 +936,13 @@ class ExtModel:
     def m_asyncio_sleep_done(self, interp, st, recv, args, kwargs, node):
         return [("val", st, Const(None))]
 
+    def m_functools_partial(self, interp, st, recv, args, kwargs, node):
+        from .values import PartialV
+
+        if not args:
+            return [self._raise(interp, st, TypeError, node, "partial() without a callable")]
+        return [("val", st, PartialV(args[0], args[1:], kwargs))]
+
     def m_asyncio_Task_cancel(self, interp, st, recv, args, kwargs, node):
         interp.emit(st, "call", "asyncio.Task.cancel", node, recv=recv, with_facts=True)
         if recv is not None:
@@ -977,6 +1014,8 @@ class ExtModel:
                 if getattr(x, "maxof", None) is not None and isinstance(y, Const) and isinstance(y.value, int) and y.value >= 1:
                     # max(d.keys()) + k with k >= 1 is greater than every key of d
                     res.gt_all_keys_of = x.maxof
+                    if getattr(x, "maxof_default", None) is not None:
+                        res.lower_bound = x.maxof_default + y.value
             ms = {}
             for x in (a, b):
                 src = getattr(x, "minsep", None)
@@ -1108,6 +1147,8 @@ class ExtModel:
             return len(val.value)
         if getattr(val, "exactlen", None) is not None:
             return val.exactlen
+        if getattr(val, "maxlen", None) is not None and self.min_len(interp, st, val) >= val.maxlen:
+            return val.maxlen
         ty = interp.ty_of(val)
         if ty == "fwid":
             return 2
